@@ -63,6 +63,9 @@ impl Cli {
             }
             i += 1;
         }
+        if let (Some(out), None) = (&c.out, &c.case) {
+            crate::report::set_sidecar(&format!("{}.viol", out));
+        }
         if c.stage == "__noop__" {
             // used by the driver to build under `cargo miri run` and capture the interpreter
             // command line without running anything
